@@ -81,16 +81,18 @@ class Recorder(object):
         self.calls = []
 
 
-def make_replacement(kind, tag, rec):
-    """returns (patch kwargs, expected-result function of the received (args, kwargs))"""
+def make_replacement(kind, tag, rec, fut=False):
+    """returns (patch kwargs, expected-result function of the received (args, kwargs)); with ``fut`` the
+    replacement's result is itself a future object (a handle the caller is meant to receive as it is)"""
     from unittest import mock
+    from asynq import ConstFuture
 
     def result(args, kwargs):
         return [tag, [repr(a) if not isinstance(a, (int, str)) else a for a in args], sorted(kwargs.items())]
 
     def record(*args, **kwargs):
         rec.calls.append((args, kwargs))
-        return result(args, kwargs)
+        return ConstFuture(result(args, kwargs)) if fut else result(args, kwargs)
 
     if kind == "default":
         return {"_default": True, "_side_effect": record}, result
@@ -113,7 +115,7 @@ def make_replacement(kind, tag, rec):
     if kind == "new_callable_mock":
         def factory(**kw):
             return mock.MagicMock(side_effect=record, **kw)
-        return {"new_callable": factory}, result
+        return {"new_callable": factory, "_record": record}, result
     if kind == "new_callable_object":
         class Obj2(object):
             def __call__(self, *args, **kwargs):
@@ -128,13 +130,14 @@ def make_patch(how, mod, target, kw):
     kw = dict(kw)
     default = kw.pop("_default", False)
     side = kw.pop("_side_effect", None)
+    kw.pop("_record", None)
     p = patch(path, **kw) if how == "string" else patch.object(owner, attr, **kw)
     return p, default, side
 
 
-def exercise(live, args, kwargs, result_fn, rec, prefix=()):
+def exercise(live, args, kwargs, result_fn, rec, prefix=(), fut=False):
     """all four calling conventions against the live (patched) callable"""
-    from asynq import asynq as A
+    from asynq import asynq as A, FutureBase
     problems = []
     outs = {}
 
@@ -169,6 +172,10 @@ def exercise(live, args, kwargs, result_fn, rec, prefix=()):
         if tuple(call[0]) != tuple(prefix) + tuple(args) or call[1] != kwargs:
             problems.append("%s delivered %r, the given arguments were %r %r%s" % (name, call, args, kwargs, " (after the bound instance)" if prefix else ""))
         exp = result_fn(*call)
+        if fut:
+            exp = ["<future object>", exp]
+        if isinstance(r, FutureBase):
+            r = ["<future object>", r.value()]
         if r != exp:
             problems.append("%s returned %r, the replacement returned %r" % (name, r, exp))
     return problems
@@ -195,9 +202,10 @@ def check_cell(case, ctx):
     owner, attr, path, live, inst = locate(mod, target)
     original = owner.__dict__[attr]
     rec = Recorder()
-    kw, result_fn = make_replacement(repl, "R", rec)
+    fut = bool(case.get("future_result"))
+    kw, result_fn = make_replacement(repl, "R", rec, fut)
     viol = []
-    desc = "%s patched (%s, by %s) with %s, left by %s" % (target, act, how, repl, exit_)
+    desc = "%s patched (%s, by %s) with %s%s, left by %s" % (target, act, how, repl, " whose result is a future object" if fut else "", exit_)
 
     def bad(clause, msg):
         viol.append(("C19." + clause + ":" + repl, desc + ": " + msg))
@@ -209,7 +217,7 @@ def check_cell(case, ctx):
             if owner.__dict__[attr] is not kw["new"]:
                 bad("install", "the non-callable replacement was not installed as is")
         else:
-            for pr in exercise(live, args, kwargs, result_fn, rec, prefix_for(target, repl, inst)):
+            for pr in exercise(live, args, kwargs, result_fn, rec, prefix_for(target, repl, inst), fut):
                 bad("reach", pr)
                 break
         if exit_ == "exception":
@@ -302,6 +310,7 @@ def check_rebind(case, ctx):
     kw = dict(kw)
     default = kw.pop("_default", False)
     side = kw.pop("_side_effect", None)
+    kw.pop("_record", None)
     viol = []
     desc = "%s patched by dotted path (%s) with %s; the owner is re-bound between building and activating the patcher" % (target, act, repl)
 
@@ -364,14 +373,19 @@ def enum_cells(tier):
     for t, r, a, e in itertools.product(TARGETS, REPLACEMENTS, ACTIVATIONS, EXITS):
         for how in ("object", "string"):
             yield {"target": t, "replacement": r, "activation": a, "exit": e, "how": how, "args": [3], "kwargs": {}}
+            if r != "non_callable" and e == EXITS[0]:
+                yield {"target": t, "replacement": r, "activation": a, "exit": e, "how": how, "args": [3], "kwargs": {}, "future_result": True}
 
 
 # ---- nested / sequential histories -------------------------------------------------------------------
 
 def strat_hist(tier):
     op = st.one_of(st.tuples(st.just("push"), st.sampled_from([r for r in REPLACEMENTS]), st.sampled_from(["object", "string"])).map(list),
-                   st.just(["pop"]), st.just(["pop"]), st.just(["stopall"]), st.just(["restart"]), st.tuples(st.just("call"), st.lists(st.integers(0, 4), min_size=1, max_size=2), st.booleans()).map(list))
-    return st.fixed_dictionaries({"target": st.sampled_from(TARGETS), "ops": st.lists(op, min_size=2, max_size=10 if tier == "quick" else 20)})
+                   st.tuples(st.just("push_same"), st.sampled_from(["object", "string"])).map(list),
+                   st.just(["pop"]), st.just(["pop"]), st.just(["stopall"]), st.just(["restart"]), st.tuples(st.just("call"), st.lists(st.integers(0, 4), min_size=1, max_size=2), st.booleans()).map(list),
+                   st.tuples(st.just("call"), st.lists(st.integers(0, 4), min_size=1, max_size=2), st.booleans()).map(list))
+    return st.fixed_dictionaries({"target": st.sampled_from(TARGETS), "ops": st.lists(op, min_size=2, max_size=10 if tier == "quick" else 20),
+                                  "future_result": st.sampled_from([False, False, True])})
 
 
 def check_hist(case, ctx):
@@ -386,16 +400,26 @@ def check_hist(case, ctx):
     depth_max = 0
     stopped = None
     reactivated = False
-    first_rec, first_fn, keep = {}, {}, []
+    first_rec, first_fn, first_kw, keep = {}, {}, {}, []
+    fut = bool(case.get("future_result"))
+    shared_obj = False
 
     def bad(clause, msg):
         viol.append(("C19." + clause, "%s, after ops %r: %s" % (target, case["ops"][:step + 1], msg)))
 
     try:
         for step, op in enumerate(case["ops"]):
-            if op[0] == "push":
-                rec = Recorder()
-                kw, result_fn = make_replacement(op[1], "L%d" % len(stack), rec)
+            if op[0] in ("push", "push_same"):
+                if op[0] == "push_same":
+                    # a second, overlapping patch of the same attribute installs the very object the enclosing patch installed
+                    if not stack or "new" not in stack[-1][5] or stack[-1][3] is None:
+                        continue
+                    kw, rec, result_fn, kind_ = stack[-1][5], stack[-1][2], stack[-1][3], stack[-1][4]
+                    op = ["push", kind_, op[1]]
+                    shared_obj = True
+                else:
+                    rec = Recorder()
+                    kw, result_fn = make_replacement(op[1], "L%d" % len(stack), rec, fut)
                 try:
                     p, default, side = make_patch(op[2], mod, target, kw)
                     m = p.start()
@@ -406,8 +430,9 @@ def check_hist(case, ctx):
                     m.side_effect = side
                 first_rec[id(p)] = rec
                 first_fn[id(p)] = result_fn
+                first_kw[id(p)] = kw
                 keep.append(p)
-                stack.append((p, owner.__dict__[attr], rec, result_fn, op[1]))
+                stack.append((p, owner.__dict__[attr], rec, result_fn, op[1], kw))
                 depth_max = max(depth_max, len(stack))
             elif op[0] == "restart":
                 # the same patcher object is activated again after it was stopped
@@ -416,24 +441,24 @@ def check_hist(case, ctx):
                 p, kind, side, default = stopped
                 stopped = None
                 rec = Recorder()
-                kw2, result_fn = make_replacement(kind, "again%d" % len(stack), rec)
+                kw2, result_fn = make_replacement(kind, "again%d" % len(stack), rec, fut)
                 if kind in ("default", "new_callable_mock", "new_callable_object"):
                     # the patcher creates a fresh replacement on every activation
                     m = p.start()
                     if default:
                         m.side_effect = kw2["_side_effect"]
                     elif kind == "new_callable_mock":
-                        m.side_effect = lambda *a, **k: (rec.calls.append((a, k)), result_fn(a, k))[1]
+                        m.side_effect = kw2["_record"]
                     else:
                         # a fresh instance of the callable-object class records into the first recorder: re-point it
                         rec = first_rec[id(p)]
                         result_fn = first_fn[id(p)]
-                    stack.append((p, owner.__dict__[attr], rec, result_fn, kind))
+                    stack.append((p, owner.__dict__[attr], rec, result_fn, kind, {}))
                     depth_max = max(depth_max, len(stack))
                     reactivated = True
                 else:
                     p.start()
-                    stack.append((p, owner.__dict__[attr], first_rec[id(p)], first_fn[id(p)], kind))
+                    stack.append((p, owner.__dict__[attr], first_rec[id(p)], first_fn[id(p)], kind, first_kw.get(id(p), {})))
                     depth_max = max(depth_max, len(stack))
                     reactivated = True
             elif op[0] == "pop":
@@ -459,12 +484,12 @@ def check_hist(case, ctx):
                 args = tuple(op[1])
                 kwargs = {"k": 9} if op[2] else {}
                 if stack:
-                    p, obj, rec, result_fn, kind = stack[-1]
+                    p, obj, rec, result_fn, kind = stack[-1][:5]
                     if result_fn is None:
                         if owner.__dict__[attr] is not obj:
                             bad("install", "non-callable replacement not visible")
                     else:
-                        for pr in exercise(live, args, kwargs, result_fn, rec, prefix_for(target, kind, inst)):
+                        for pr in exercise(live, args, kwargs, result_fn, rec, prefix_for(target, kind, inst), fut):
                             bad("reach:" + kind, pr)
                             break
                 elif target != "attribute":
@@ -485,6 +510,8 @@ def check_hist(case, ctx):
         sys.modules.pop("c19_target_mod", None)
     ctx.label("depth>=2", depth_max >= 2)
     ctx.label("same-patcher-activated-again", reactivated)
+    ctx.label("overlapping-patches-share-one-replacement-object", shared_obj)
+    ctx.label("future-valued-results", fut)
     ctx.label("stopall-with-overlap", any(o[0] == "stopall" for o in case["ops"]) and depth_max >= 2)
     ctx.label("target=" + target)
     ctx.nontrivial(case, depth_max >= 1)
@@ -499,4 +526,4 @@ def reduce_hist(case):
 
 SUBS = [Sub("matrix", check_cell, enumerate=enum_cells),
         Sub("late-binding", check_rebind, enumerate=rebind_cells),
-        Sub("histories", check_hist, strategy=strat_hist, reduce=reduce_hist, examples={"quick": 1500, "thorough": 60000})]
+        Sub("histories", check_hist, strategy=strat_hist, reduce=reduce_hist, examples={"quick": 12000, "thorough": 300000})]
